@@ -145,8 +145,13 @@ def cgrJudge (S : Nat) (s : List Nat) (pts : List (Nat × Nat)) : Option Nat :=
         let jj := min j cs.length
         let A := (List.range jj).foldl (fun a t => a + (cs.getD t 0) * S * f64One / 2 ^ (t + 1)) 0
         A ≤ v ∧ v ≤ A + S * f64One / 2 ^ jj
-    -- `rx`, `ry`: corners seen so far, most recent first (only the last `j` are kept)
-    let rec go (i : Nat) (rx ry : List Nat) :
+    -- a run of `z ≤ 1073` bases whose corner coordinate is 0 confines the coordinate to [0, S/2^z] at ANY length of the run
+    -- (the bound S·2^(1074-z) and its halves are doubles and rounding is monotone: `cgrF64_zero_run`), far beyond the `j`
+    -- bases for which general sub-square bounds are representable
+    let okz := fun (z v : Nat) => z = 0 ∨ z > 1073 ∨ v * 2 ^ z ≤ S * f64One
+    -- `rx`, `ry`: corners seen so far, most recent first (only the last `j` are kept); `zx`, `zy`: length of the current run
+    -- of zero corners
+    let rec go (i : Nat) (rx ry : List Nat) (zx zy : Nat) :
         List (Nat × Nat) → List (Nat × Nat × Nat) → List (Nat × Nat) → Option Nat
       | _, [], _ => none
       | _, _, [] => none
@@ -154,8 +159,10 @@ def cgrJudge (S : Nat) (s : List Nat) (pts : List (Nat × Nat)) : Option Nat :=
       | (cx, cy) :: cr, (X, Y, e) :: er, (x, y) :: pr =>
         let rx := (cx :: rx).take j
         let ry := (cy :: ry).take j
-        if okc X e x rx ∧ okc Y e y ry then go (i + 1) rx ry cr er pr else some i
-    go 0 [] [] corners ex pts
+        let zx := if cx = 0 then zx + 1 else 0
+        let zy := if cy = 0 then zy + 1 else 0
+        if okc X e x rx ∧ okc Y e y ry ∧ okz zx x ∧ okz zy y then go (i + 1) rx ry zx zy cr er pr else some i
+    go 0 [] [] 0 0 corners ex pts
 
 def fmtSeqRecs (l : List SeqRec) : String :=
   joinWith "," (l.map fun r => s!"{r.n}:{hex r.id}:{hex r.seq}")
